@@ -185,7 +185,9 @@ def _dev1(maxk):
 
 SHAPES = ["rect", "rrect", "circle", "ellipse", "line", "polyline", "polygon", "path", "mpath",
           # shapes that carry a transform of their own (pending, not reified): the sum draws their transformed geometry
-          "rect-tf", "circle-tf", "polygon-tf", "line-tf", "path-tf"]
+          "rect-tf", "circle-tf", "polygon-tf", "line-tf", "path-tf",
+          # ... and was written in relative form (its own text starts with m: relative to nothing, not to a's end)
+          "path-tf-rel", "mpath-tf-rel"]
 
 
 CONTINUE = ["z l 1,1", "l 2,0 z h1", "t 3,1 Z m1,1 h2"]
@@ -259,6 +261,10 @@ class Concatenation(SubCheck):
             return s.SimpleLine(1, 2, 6, -4, transform="translate(-5,5) scale(3)")
         if kind == "path-tf":
             return s.Path("M1,2 q3,4 5,-6 t1,1 z", transform="translate(7,7)")
+        if kind == "path-tf-rel":
+            return s.Path("m1,2 q3,4 5,-6 t1,1 z", transform="translate(7,7)")
+        if kind == "mpath-tf-rel":
+            return s.Path("m1,2 l3,4 m1,1 h4") * "scale(2,3)"
 
     def run(self, case):
         out = Outcome()
